@@ -1,14 +1,53 @@
 (* C12 -- Formatting options are cosmetic and indentation equals nesting depth.
    Model: model/FormatHtml.v (should_format, get_indent, html_element), model/OutStream.v.
-   Proofs: proofs/FormatSteps.v (element() cut into blocks), proofs/FormatProofs.v. *)
+   Proofs: proofs/FormatSteps.v (element() cut into blocks), proofs/FormatChunks.v (chunk view of
+   the stream), proofs/FormatCosmetic.v, proofs/FormatProofs.v. *)
 From Emmet Require Import lib.Base model.MarkupConvert model.OutStream model.FormatHtml
-     proofs.FormatSteps proofs.FormatProofs.
+     proofs.FormatSteps proofs.FormatProofs proofs.FormatChunks proofs.FormatCosmetic.
+
+(* SPEC.
+   fchunks st      the callback invocations of a run, positions erased: CT text | CF index placeholder
+   content st      fchunks with every text chunk made of blanks only removed and leading blanks of
+                   the other text chunks removed: the tags, attributes, text and fields, in order
+   ws_fmt f        output.indent, output.baseIndent and output.newline consist of blanks
+   same_but_cosmetic c1 c2
+                   the two option records agree on every option except output.format, indent,
+                   newline, baseIndent, inlineBreak, formatLeafNode, formatSkip, formatForce *)
+
+(* format_cosmetic: for ALL trees and ALL pairs of option records that differ only in the
+   cosmetic options, the two runs of the HTML formatter produce the same content. *)
+Theorem format_cosmetic c1 c2 children :
+  same_but_cosmetic c1 c2 -> ws_fmt (oc_fmt c1) -> ws_fmt (oc_fmt c2) ->
+  content (html_format c1 children) = content (html_format c2 children).
+Proof. exact (format_cosmetic_lemma c1 c2 children). Qed.
+Print Assumptions format_cosmetic.
 
 (* level_restored: the indentation level (the number of indent units a line break made now
    would be followed by) is the same after an element as before it, for ALL trees, sibling
-   positions, option records and stream states.  With get_indent this is what makes the level
-   at any point the number of enclosing elements (minus those exempted by formatSkip). *)
+   positions, option records and stream states. *)
 Theorem level_restored c node parent index items st :
   os_level (fs_out (html_element c parent node index items st)) = os_level (fs_out st).
 Proof. exact (level_restored_lemma c node parent index items st). Qed.
 Print Assumptions level_restored.
+
+(* Non-vacuity: <div><p>hi</p><span title="${1}"> x</span></div> under the default options and
+   under format=false, indent two blanks, newline CRLF: different chunk lists, same non-empty content. *)
+Definition ex_c1 : oconfig :=
+  mkOconfig (mkOfmt [9] [] [10])%N [] [] [] true false [] [] 3 false [] s_html [[115;112;97;110]]%N
+            false [] [] [] false None None.
+Definition ex_c2 : oconfig :=
+  mkOconfig (mkOfmt [32;32] [9] [13;10])%N [] [] [] false true [[112]]%N [] 0 false [] s_html [[115;112;97;110]]%N
+            false [] [] [] false None None.
+Definition ex_tree : list anode :=
+  [ANode (Some [100;105;118]%N) None None None
+     [ANode (Some [112]%N) (Some [VStr [104;105]%N]) None None [] false;
+      ANode (Some [115;112;97;110]%N) (Some [VStr [32;120]%N]) None
+            (Some [mkAAttr (Some [116]%N) (Some [VField 1 []]) VRaw false false false]) [] false] false].
+Example format_cosmetic_nonvacuous :
+  same_but_cosmetic ex_c1 ex_c2 /\ ws_fmt (oc_fmt ex_c1) /\ ws_fmt (oc_fmt ex_c2) /\
+  fchunks (html_format ex_c1 ex_tree) <> fchunks (html_format ex_c2 ex_tree) /\
+  length (content (html_format ex_c1 ex_tree)) = 15.
+Proof.
+  split; [repeat split|]. split; [repeat split|]. split; [repeat split|].
+  split; [vm_compute; discriminate|vm_compute; reflexivity].
+Qed.
